@@ -23,7 +23,7 @@ def main(tier):
         if rw.violated != "Sound":
             raise vlib.Infra("vacuous: Smt.tla without G_ProofEndsAtProven does not violate Sound")
         # 2. the real verifier: all 243 K=3 states in the thorough tier, a seeded sample in the quick tier; K=4 sample
-        plans = [(3, 40), (4, 6)] if tier == "quick" else [(3, 243), (4, 60), (5, 20)]
+        plans = [(3, 40), (4, 6)] if tier == "quick" else [(3, 243), (4, 60)]  # K=5 needs tens of GB for the adversarial family of one state
         total_lines, ok_lines = 0, 0
         classes = {}
         samples = []
